@@ -289,12 +289,12 @@ def gen_cases(rng, tier):
     cases = []
     for name, (ncls, rels) in FAMILIES.items():
         ss = _small_scope(ncls, rels, 2 if quick else 3)
-        cap = 25 if quick else 2500
+        cap = 40 if quick else 2500
         if len(ss) > cap:
             ss = rng.sample(ss, cap)
         for ops in ss:
             cases.append({"in": [rels, ops], "kind": "small:" + name, "ncls": ncls})
-        for _ in range(25 if quick else 1500):
+        for _ in range(40 if quick else 1500):
             ops = _rand_history(rng, ncls, rels, rng.randint(4, 10 if quick else 40))
             cases.append({"in": [rels, ops], "kind": "rand:" + name, "ncls": ncls})
     # delete-orphan: oracle only (the model has no cascades)
@@ -498,7 +498,15 @@ def impl(c):
                     q = getattr(o, "r%d" % i)
                     if (q.id - 1 if q is not None else None) != p:
                         viol = "object %d: parent along r%d is %r in memory, %r reloaded" % (k, i, p, q.id - 1 if q is not None else None)
+                    v = getattr(o, "f%d" % i)
+                    if (v - 1 if v is not None else None) != p:
+                        viol = "object %d: foreign key column f%d is %r, the parent in memory is %r" % (k, i, v - 1 if v is not None else None, p)
                 for i, l in ent["coll"].items():
+                    for ch in l:
+                        if ch in loaded:
+                            v = getattr(loaded[ch], "f%d" % i)
+                            if (v - 1 if v is not None else None) != k:
+                                viol = "object %d is in collection c%d of %d in memory, its foreign key column is %r" % (ch, i, k, v)
                     q = sorted(x.id - 1 for x in getattr(o, "c%d" % i))
                     if q != l:
                         viol = "object %d: collection c%d is %r in memory, %r reloaded" % (k, i, l, q)
